@@ -196,6 +196,12 @@ def compare(it: Interp, op, a, b):
     if isinstance(op, ast.NotIn):
         r = contains(it, b, a)
         return (not r) if isinstance(r, bool) else SV(z3.Not(r.t))
+    ha = getattr(a, "vc_compare", None)
+    if ha is not None and not isinstance(op, (ast.NotEq,)):
+        return ha(it, op, b, False)
+    hb = getattr(b, "vc_compare", None)
+    if hb is not None and not isinstance(op, (ast.NotEq,)):
+        return hb(it, op, a, True)
     if isinstance(op, ast.Eq) and not ((_is_conc_num(a) or _sym_num(a)) and (_is_conc_num(b) or _sym_num(b))):
         return values_equal(it, a, b)
     if isinstance(op, ast.NotEq) and not ((_is_conc_num(a) or _sym_num(a)) and (_is_conc_num(b) or _sym_num(b))):
@@ -1192,6 +1198,12 @@ def builtin_getattr(it: Interp, v, name):
     if isinstance(v, (str, SymStr)):
         if name in ("format", "join", "strip", "lower", "upper"):
             return _m("str." + name, lambda it, a, k: SymStr())
+    if isinstance(v, (SV, int, Fraction)) and not isinstance(v, bool) and name == "is_integer":
+        def is_integer(it, a, k):
+            if isinstance(v, SV):
+                return True if L.is_int(v.t) else SV(z3.ToReal(z3.ToInt(v.t)) == v.t)
+            return Fraction(v).denominator == 1
+        return _m("float.is_integer", is_integer)
     if isinstance(v, ItemV):
         raise Unsupported(f"OPACITY: attribute '{name}' of an item")
     if isinstance(v, GenResult):
